@@ -256,3 +256,31 @@ def run_method(P, fn, arg, follows=('cond', ('has', 'a')), standalone=False):
             q.where = (fr[0], ex.line_of(fr))
             ex.results.append(q)
     return ex.results
+
+
+def new_wiring(P):
+    """PathMutImpl::new: follows_authority is find_authority over the PREFIX before the path (buffer[..start], scanned from 0) — the state
+    the needs_root / shield decisions of push, pop and normalize rest on.  Returns a problem or None."""
+    from . import terms, mir
+    b = P.body(PRE + 'new')
+    if b is None:
+        return 'PathMutImpl::new not found'
+    T = terms.Terms(b)
+    calls = [(bi, t) for bi, t in P.calls(b) if (mir.callee(t) or '') == 'common::parse::find_authority']
+    if len(calls) != 1:
+        return f'PathMutImpl::new calls parse::find_authority {len(calls)} times (once expected)'
+    t = calls[0][1]
+    a0, a1 = T.operand(t['args'][0]), T.operand(t['args'][1])
+
+    def strip(x):
+        while x[0] in ('ref', 'deref'):
+            x = x[1]
+        return x
+    a0 = strip(a0)
+    ok = (a0[0] == 'call' and a0[1].endswith('::index') and len(a0[2]) == 2 and strip(a0[2][0])[:2] == ('arg', 1)
+          and a0[2][1][0] == 'agg' and a0[2][1][1][:2] == ('adt', 'std::ops::RangeTo') and strip(a0[2][1][2][0])[:2] == ('arg', 2) and a1 == ('int', 0))
+    if not ok:
+        return ('follows_authority is not find_authority(&buffer[..start], 0): the authority is looked for somewhere else than in the prefix before the path '
+                f'(arguments {str(a0)[:80]}, {str(a1)[:20]})')
+    # the flag stored is is_ok() of that result
+    return None
